@@ -191,7 +191,7 @@ func runCheck(root string, args []string) int {
 	}
 	var names []string
 	for n, c := range E.Specs.Contracts {
-		if E.functionHasProp(n, c, prop) && !c.Trusted {
+		if E.functionHasProp(n, c, prop) && (!c.Trusted || hasProp(c.Sweep, prop) && len(c.Sweep) > 0) {
 			names = append(names, n)
 		}
 	}
